@@ -99,9 +99,11 @@ FUNCS = [
     ("rtrlib/rtr/packets.c", "rtr_sync", {"xworld": "struct rtr_socket", "localbuf": "pdu"}),
     ("rtrlib/rtr/packets.c", "rtr_send_serial_query", {"xworld": "struct rtr_socket"}),
     ("rtrlib/rtr/packets.c", "rtr_send_reset_query", {"xworld": "struct rtr_socket"}),
+    ("rtrlib/rtr/packets.c", "rtr_pdu_convert_footer_byte_order", {"mem": ["pdu"], "writes": True, "memlocals": ["addr6"]}),
 ]
 
 LISTED = set(f[1] for f in FUNCS)
+CROSS_INLINE = {"lrtr_ipv4_addr_convert_byte_order": "rtrlib/lib/ipv4.c", "lrtr_ipv6_addr_convert_byte_order": "rtrlib/lib/ipv6.c"}
 FUNC_INDEX = {f[1]: i for i, f in enumerate(FUNCS)}
 # records whose pointer members are kept (as identities); elsewhere pointer members are left out of the structure
 PTR_FIELD_RECORDS = {"struct key_entry", "struct spki_record"}
@@ -1701,6 +1703,8 @@ class Fn:
                         writebacks.append((pth, pname))
                 elif self.uses_mem and v.ty.kind == "ptr":
                     sub.vars[pname] = {"ty": pty, "mode": "mem"}
+                    if getattr(v, "bound", None):
+                        sub.vars[pname]["bound"] = v.bound      # the helper's pointer points into the caller's object
                     binds.append("let %s : Nat := %s" % (sub.ln(pname), v.text))
                 else:
                     bad("unsupported pointer argument for '%s' of '%s'" % (pname, name), n)
@@ -2393,8 +2397,11 @@ class Fn:
         op = "+" if s["opcode"] == "++" else "-"
         cur = self.path_text(p)
         gs = []
+        known0 = env.get("consts", {}).get(p["root"]) if not p["steps"] and self.vars[p["root"]]["mode"] == "local" else None
         if ty.bits >= 32 and ty.signed:
-            gs.append("(!(%s %s %s))" % ("BitVec.saddOverflow" if op == "+" else "BitVec.ssubOverflow", cur, lit(1, ty.bits)))
+            lim = (1 << (ty.bits - 1)) - 1 if op == "+" else (1 << (ty.bits - 1))
+            if known0 is None or known0 == lim:       # with a known value the overflow test is decided here
+                gs.append("(!(%s %s %s))" % ("BitVec.saddOverflow" if op == "+" else "BitVec.ssubOverflow", cur, lit(1, ty.bits)))
         if self.vars[p["root"]]["mode"] == "local" and self.path_key(p) not in env["defined"] and p["root"] not in env["defined"]:
             gs.append("false")
         root = p["root"]
@@ -2510,6 +2517,11 @@ def translate_all():
     for rel, _, _ in FUNCS:
         if rel not in tus:
             tus[rel] = TU(rel)
+    # small helpers of other files that are inlined at their calls (name -> file that defines them)
+    for hname, hrel in CROSS_INLINE.items():
+        if hrel in tus and hname in tus[hrel].funcs:
+            for tu in tus.values():
+                tu.funcs.setdefault(hname, tus[hrel].funcs[hname])
     for attempt in range(3):
         STRUCTS.clear()
         del STRUCT_ORDER[:]
